@@ -107,13 +107,25 @@ pub fn converged(d: &Driver) -> Option<Conv> {
             leaders.push(v);
         }
     }
-    if leaders.len() != 1 {
+    if leaders.is_empty() {
         return None;
     }
-    let l = leaders[0];
+    // the leader of the highest term; any other node that believes it leads must be a node that
+    // leader's configuration no longer lists (removed while cut off: it can never learn of its
+    // removal from the log and, without check-quorum, leads nobody forever - its application
+    // would be told from outside); a second leader among the members means "not converged"
+    let l = *leaders
+        .iter()
+        .max_by_key(|&&v| d.sim.nodes[v].raw.as_ref().unwrap().raft.term)
+        .unwrap();
     let lr = d.sim.nodes[l].raw.as_ref().unwrap();
     let conf = d.sim.nodes[l].conf.clone();
     let mem = conf.members();
+    for &o in &leaders {
+        if o != l && mem.contains(&d.sim.nodes[o].id) {
+            return None;
+        }
+    }
     // the leader has the highest term among the running members of its configuration
     // (a removed node that never learnt of its removal may campaign forever at higher terms)
     let _ = max_term;
